@@ -94,7 +94,11 @@ class PDFToPNG(object):
                 outputc = context["output"]
                 outputc["filetype"] = "png"
                 pdf_name = data
-                data = pdf_name.replace(".pdf", "")
+                if pdf_name.endswith(".pdf"):
+                    # only the extension is removed
+                    data = pdf_name[:-4]
+                else:
+                    data = pdf_name.replace(".pdf", "")
                 if not os.path.exists(data + "." + self._format)\
                     or self._overwrite or outputc.get("changed", False):
                     # pdftopng adds -00001 suffix, no way to disable that.
